@@ -138,7 +138,9 @@ var goodURIs = []string{"https://example.com/a", "http://hub.example.com/.identi
 // akaURIs: also-known-as URIs, including spellings that are not fixed points of URL normalisation (the composer treats
 // them as plain strings)
 var akaURIs = []string{"HTTP://Upper.example", "http://Upper.example", "https://example.com/profile", "https://example.com/zo%C3%AB", "https://example.com/zo\u00eb", "https://example.com/profile#", "https://example.com/a", "did:example:123",
-	"http://hub.example.com/.identity/did:example:0123456789abcdef/", "https://a.b/c?d=e#f", "/relative/path", "urn:uuid:6ba7b810-9dad-11d1-80b4-00c04fd430c8", "https://example.com/a b"}
+	"http://hub.example.com/.identity/did:example:0123456789abcdef/", "https://a.b/c?d=e#f", "/relative/path", "urn:uuid:6ba7b810-9dad-11d1-80b4-00c04fd430c8", "https://example.com/a b",
+	// references without a scheme parse as URIs too
+	"identityURI", "alias/1", "user@example.com", "#me", "?q=1"}
 
 var badEndpointURIs = []string{"", "::bad", "example.com", "http://[::1", "%zz", "rel/path", "http://a b.com/"}
 var badAkaURIs = []string{"::bad", "http://[::1", "%zz", "http://a\x7fb", ":"}
@@ -158,7 +160,17 @@ func genServiceEndpoint(t *rapid.T) interface{} {
 		return []interface{}{rapid.SampledFrom(goodURIs).Draw(t, "uri"),
 			map[string]interface{}{"uri": "https://x.example", "accept": []interface{}{"didcomm/v2"}}}
 	default:
-		return map[string]interface{}{"uri": rapid.SampledFrom(goodURIs).Draw(t, "uri"), "routingKeys": []interface{}{"did:example:r#k"}}
+		ep := map[string]interface{}{"uri": rapid.SampledFrom(goodURIs).Draw(t, "uri"), "routingKeys": []interface{}{"did:example:r#k"}}
+		if rapid.IntRange(0, 2).Draw(t, "endpointNames") == 0 {
+			// member names are free here: names whose UTF-16 order differs from their code-point order, prefixes of one another,
+			// names that need escaping
+			for _, name := range []string{"\U0001F600", "\uFF21", "\uE000", "\U00010000", "u", "uri2", "\u20ac", "a\"b", "\u007f"} {
+				if rapid.IntRange(0, 2).Draw(t, "endpointName") == 0 {
+					ep[name] = "v"
+				}
+			}
+		}
+		return ep
 	}
 }
 
